@@ -16,7 +16,9 @@ STMTS = {"assign": "o.x = {c}", "add": "o.x += {c}", "sub": "o.x -= {c}", "mul":
 # other ways of writing the same augmented assignment (the object reached through a subscript, a
 # call, or inside a one-line if)
 SHAPES = ["{stmt}", "{stmt}", "objs[0].x {op} {c}", "same(o).x {op} {c}", "if True: {stmt}",
-          "o . x {op} {c}"]
+          "o . x {op} {c}",
+          # the same line reads the attribute a second time, before or after the assignment
+          "if o.x > -10 ** 9: {stmt}", "{stmt}; out.append(o.x)"]
 OPS = {"add": "+=", "sub": "-=", "mul": "*="}
 
 
@@ -30,7 +32,10 @@ def attr_case(draw):
                      draw(st.integers(1, 4)), draw(st.integers(0, len(SHAPES) - 1))] for _ in range(n)])
   fine = st.lists(st.tuples(st.integers(0, 5), st.integers(1, 9)), max_size=60)
   return {"threads": threads, "initial": draw(st.integers(0, 3)),
-          "schedule": [list(x) for x in draw(st.one_of(schedule_st, fine))]}
+          "schedule": [list(x) for x in draw(st.one_of(schedule_st, fine))],
+          # the statements live in a function that refers to more than 128 other names first (so
+          # that the attribute's name needs an extended argument in the bytecode)
+          "big": draw(st.integers(0, 3)) == 0}
 
 
 def serial_results(threads, initial):
@@ -60,7 +65,9 @@ class C27(Prop):
   rule = ("Generated programs under the deterministic scheduler with the attribute's RLock replaced "
           "by a virtual lock: 2-3 threads x 1-3 statements each from {o.x = c, o.x += c, o.x -= c, "
           "o.x *= c, read o.x} on one thread-safe attribute (the augmented assignments also written as "
-          "objs[0].x += c, same(o).x += c, 'if True: o.x += c' and 'o . x += c'), written to a real source file (miros "
+          "objs[0].x += c, same(o).x += c, 'if True: o.x += c', 'o . x += c', 'if o.x > -10**9: o.x += c' and "
+          "'o.x += c; out.append(o.x)'; a quarter of the programs put the statements in functions that refer to 140 "
+          "other names first), written to a real source file (miros "
           "inspects the caller's source line); pre-emption at every line of "
           "miros/thread_safe_attributes.py and of the generated file, schedules with run lengths "
           "from 1 (fine races) to 200. Oracle: no thread dies with an exception, no deadlock (exact "
@@ -84,6 +91,8 @@ class C27(Prop):
     src = ""
     for t, stmts in enumerate(case["threads"]):
       src += "def t%d(o, out):\n  objs = [o]\n  same = lambda q: q\n" % t
+      if case.get("big"):
+        src += "  if objs is None:\n    (%s)\n" % ", ".join("vf_n%d" % i for i in range(140))
       for st_ in stmts:
         k, c = st_[0], st_[1]
         line = STMTS[k].format(c=c)
